@@ -15,7 +15,7 @@ def run(chk, tier):
                 'before registration; same mode => append; new method => insert), Each::deconstruct (empty stub => Err), try_from_clause and '
                 'from_assembler (Err => panic at construction); TYWIT + K7: ordered patterns only take exact counts, then() only follows an '
                 'exact count, 17-tuples are not clauses (witnesses with compiling twins).')
-    for cfg in configs(tier, thorough=('std', 'mocks', 'nostd-spin', 'nostd')):
+    for cfg in configs(tier, quick=('std', 'nostd'), thorough=('std', 'mocks', 'nostd-spin', 'nostd')):
         F = load(chk, cfg)
         A.tuple_order(chk, F, 'R14.1', cfg)
         A.push_table(chk, F, 'R14.2', cfg)
